@@ -311,7 +311,7 @@ func (point Point) Shift(i, n int) Location {
 // Expand the location beyond the given position i by n.
 func (point Point) Expand(i, n int) Location {
 	p := int(point)
-	if n < 0 && i == p {
+	if n < 0 && i <= p && p < i-n {
 		return Between(i)
 	}
 	if (0 <= n && i <= p) || (n < 0 && i < p) {
